@@ -1,7 +1,10 @@
 SPECIFICATION Spec
 CONSTANTS
+  MaxSent = 0
   Kinds <- MC_Thorough
 INVARIANT SymmetricInv
 INVARIANT RangesInv
 INVARIANT AllValid
+INVARIANT Obey
+INVARIANT LimitsSane
 CHECK_DEADLOCK FALSE
